@@ -127,9 +127,17 @@ func genVerCase(r *rng.R) verCase {
 	}
 	if r.Chance(1, 4) {
 		c.Pre = rng.Pick(r, []string{"rc1", "beta-2", "alpha.1", "0"})
+		// an explicit component is the packager's own string, not a semver identifier: values the semver grammar
+		// refuses (underscore, tilde, leading zero, empty identifier, blank, non-ASCII) take precedence all the same
+		if r.Chance(1, 3) {
+			c.Pre = rng.Pick(r, []string{"beta_1", "pre~2", "01", "2024.01.15~git", "rc 1", "a..b", "rc1+x", "\u00e9", ".", "1.02"})
+		}
 	}
 	if r.Chance(1, 5) {
 		c.Meta = rng.Pick(r, []string{"git", "build.5", "p7", "git-abc123", "2024-01-02"})
+		if r.Chance(1, 3) {
+			c.Meta = rng.Pick(r, []string{"git_abc", "a+b", "b..c", "build 5", "~1", "\u00fc", "x/y"})
+		}
 	}
 	if r.Chance(1, 2) {
 		c.Release = rng.Pick(r, []string{"1", "2", "r3", "0", "10", "x"})
